@@ -882,6 +882,16 @@ def run_mutrace(ctx, rng, job):
         reg = Base((top,))
         sub = Base((reg,))
         chain = [sub, reg, top]
+        # permanent entries under the *oldest* provided interface: whatever is registered and removed later sits
+        # in front of it in the per-interface bookkeeping, so an in-flight walk that loses its place misses it
+        IQZ = util.mkiface('IQZ', (IP2,), module=mod)
+        vz = Val(-7)
+        top.register([IR0], IQZ, 'z', vz)
+        top.subscribe([IR0], IQZ, vz)
+        # an alternative parent for ``sub`` (re-basing phase)
+        alt = Base((top,))
+        valt = Val(-8)
+        alt.register([IR0], IQZ, 'alt', valt)
         gen = [0]
         stop = [False]
         errors = []
@@ -890,18 +900,19 @@ def run_mutrace(ctx, rng, job):
         sys.setswitchinterval(1e-5)
         fns = [BaseAdapterRegistry.register, BaseAdapterRegistry.unregister, BaseAdapterRegistry.subscribe,
                BaseAdapterRegistry.unsubscribe, AdapterLookupBase.changed, AdapterLookupBase.add_extendor,
-               AdapterLookupBase.remove_extendor, Base.changed]
+               AdapterLookupBase.remove_extendor, Base.changed, BaseAdapterRegistry._setBases, Base._setBases,
+               BaseAdapterRegistry._update_ro, Base._update_ro]
         if hasattr(BaseAdapterRegistry, '_addValueToLeaf'):
             fns.append(BaseAdapterRegistry._addValueToLeaf)
         injected = yieldinj.install(fns, prob=0.35, seed=job['seed'] + ctx.case)
 
         def ok_tag(v, g0, g1):
-            return g0 - 1 <= v.tag <= g1 + 1
+            return v.tag < 0 or g0 - 1 <= v.tag <= g1 + 1
 
         def looker(k):
             n = 0
             local = []
-            r = chain[k % 3]
+            r = chain[k % 3] if k else sub
             try:
                 while not stop[0] and not local:
                     for s in specs:
@@ -910,12 +921,19 @@ def run_mutrace(ctx, rng, job):
                         if v is not None and not ok_tag(v, g0, gen[0]):
                             local.append(('lookup', repr(v), g0, gen[0]))
                         su = r.subscriptions([s], IP2)
-                        if len(su) > 2 or not all(ok_tag(x, g0, gen[0]) for x in su):
+                        if len(su) > 3 or not all(ok_tag(x, g0, gen[0]) for x in su) or sum(1 for x in su if x is vz) != 1:
+                            # the permanent subscriber exactly once, plus at most the two generations in flight
                             local.append(('subscriptions', repr(su), g0, gen[0]))
                         la = r.lookupAll([s], IP2)
-                        if len(la) > 1 or not all(ok_tag(x[1], g0, gen[0]) for x in la):
+                        if len(la) > 3 or not all(ok_tag(x[1], g0, gen[0]) for x in la) or ('z', vz) not in la:
                             local.append(('lookupAll', repr(la), g0, gen[0]))
-                        n += 3
+                        vn = r.lookup([s], IP2, 'z')
+                        if vn is not vz:
+                            local.append(('lookup-named-permanent', repr(vn), g0, gen[0]))
+                        va = r.lookup([s], IP2, 'alt')
+                        if not (va is None or (va is valt and r is sub)):
+                            local.append(('lookup-named-alt', repr(va), g0, gen[0]))
+                        n += 5
             except BaseException as e:      # noqa
                 import traceback
                 local.append(('exception', repr(e), ''.join(traceback.format_exception(type(e), e, e.__traceback__))[-1500:]))
@@ -956,9 +974,20 @@ def run_mutrace(ctx, rng, job):
                     s = specs[(g + 1) % len(specs)]
                     ctx.ev()
                     got = r.subscriptions([s], IP2)
-                    if list(got) != [v]:
-                        errors.append(('stale-after-subscribe', flavour, repr(got), repr(v), 'level %d' % ti))
+                    if sorted(x.tag for x in got) != sorted([v.tag, vz.tag]):
+                        errors.append(('stale-after-subscribe', flavour, repr(got), repr([vz, v]), 'level %d' % ti))
                         break
+                if g % 2 == 0:
+                    # re-basing phase: ``sub`` moves to the alternative parent and back; right after each assignment
+                    # has returned it must answer along the new chain
+                    for parent, expect_alt in ((alt, True), (reg, False)):
+                        sub.__bases__ = (parent,)
+                        ctx.ev()
+                        ctx.count('mutrace_rebasings')
+                        got = sub.lookup([specs[g % len(specs)]], IP2, 'alt')
+                        if (got is valt) != expect_alt:
+                            errors.append(('stale-after-rebase', flavour, repr(got), 'alt parent' if expect_alt else 'regular parent'))
+                            break
                 prev = (target, IQ, v)
                 done += 1
         except BaseException as e:      # noqa
